@@ -79,6 +79,8 @@ def events(names):
     ev = [('{',), ('}',)]
     for n in names:
         ev.append(('{', n))          # open a function with parameter n (only at file scope)
+        ev.append(('{', n, 'fp'))    # same, but the function returns a pointer to a function whose prototype also names n
+        ev.append(('decl', 'proto', n))   # a prototype elsewhere names n: prototype scope ends with the declarator
         for k in DECLKINDS:
             ev.append(('decl', k, n))
         for ns in ('ord', 'tag', 'goto'):
@@ -124,7 +126,11 @@ def model(hist):
             if depth == 0:
                 nfun += 1
                 sc = Scope()
-                if len(e) > 1:
+                if len(e) > 2:
+                    uid += 2
+                    lines.append('void (*f%d(char (*%s)[%d]))(char (*%s)[%d]) {' % (nfun, e[1], uid - 1, e[1], uid))
+                    sc.ord[e[1]] = ('object', uid - 1)
+                elif len(e) > 1:
                     uid += 1
                     lines.append('void f%d(char (*%s)[%d]) {' % (nfun, e[1], uid))
                     sc.ord[e[1]] = ('object', uid)
@@ -153,6 +159,10 @@ def model(hist):
             k, n = e[1], e[2]
             uid += 1
             sc = scopes[-1]
+            if k == 'proto':
+                # prototype scope: the parameter name is visible only inside the declarator
+                lines.append('void p%d(char (*%s)[%d], int (*cb)(char (*%s)[%d]));' % (uid, n, uid, n, uid + 1000))
+                continue
             if k == 'label':
                 if depth == 0:
                     return None, None
